@@ -46,7 +46,7 @@ ASSUMPTIONS = [
 ]
 REQUIRED = ["op_get_subtree", "op_node_subtree", "op_to_subtree", "op_cut_enter", "op_cut_leave",
             "op_cut_type", "op_cut_order", "op_cut_tip", "op_neurites", "op_dendrites",
-            "neurites_consumed_with_extractions_in_between",
+            "neurites_consumed_with_extractions_in_between", "op_to_sub_tree_older_name",
             "transform_instance_reused", "numpy_scalar_node_ids", "removals_as_iterator_or_set",
             "mappings_checked", "mapping_container_reused", "transform_reused_after_aborted_call",
             "zero_length_tip_branches_at_threshold_zero", "trees_derived_by_the_library_from_a_used_tree", "tip_exact_threshold_cases", "exhaustive_subsets",
@@ -183,9 +183,33 @@ def _op_to_subtree(ctx, case, spec, tree):
            "generator": lambda: (int(x) for x in rem),
            "chain": lambda: __import__("itertools").chain(rem[:1], rem[1:]),
            "set": lambda: set(rem)}[form]()
+    surv = [i for i in range(len(spec["pid"])) if i not in gone]
+    if case.get("older"):
+        # the older entry point the library still exports: the caller marks the nodes in a copy of
+        # the id column, gets the tree and an {old id: new id} dictionary
+        import warnings as _w
+
+        from swcgeom.core import tree_utils
+        from swcgeom.core.swc_utils import REMOVAL
+
+        marked = np.array(tree.id())
+        marked[[int(x) for x in rem]] = REMOVAL
+        with _w.catch_warnings():
+            _w.simplefilter("ignore")
+            out, old2new = tree_utils.to_sub_tree(tree, (marked, np.array(tree.pid())))
+        ctx.count("op_to_sub_tree_older_name")
+        inv = [None] * out.number_of_nodes()
+        for o_, n_ in old2new.items():
+            if not (0 <= int(n_) < len(inv)) or inv[int(n_)] is not None:
+                return ctx.violation("mapping-wrong", f"to_sub_tree: the id dictionary maps two old "
+                                                      f"ids to new id {n_} / out of range", case)
+            inv[int(n_)] = int(o_)
+        if any(v is None for v in inv):
+            return ctx.violation("mapping-wrong", "to_sub_tree: the id dictionary does not cover "
+                                                  "every new id", case)
+        return _compare(ctx, case, spec, out, surv, int(spec["tag"][0]), "to_sub_tree", inv, "list")
     out = to_subtree(tree, arg, out_mapping=m) if m is not None else to_subtree(tree, arg)
     ctx.count("op_to_subtree")
-    surv = [i for i in range(len(spec["pid"])) if i not in gone]
     _compare(ctx, case, spec, out, surv, int(spec["tag"][0]), "to_subtree", m,
              mk if m is not None else None)
 
@@ -559,6 +583,9 @@ def _workload(ctx):
                 go({"op": "to_subtree", "removals": [int(x) for x in rem],
                     "mapping": str(rng.choice(["list", "dict", "none"])),
                     "as": str(rng.choice(["list", "array", "generator", "chain", "set"]))})
+                if rng.random() < 0.3:
+                    go({"op": "to_subtree", "removals": sorted(set(int(x) for x in rem)),
+                        "older": True})
         for _ in range(2):
             go({"op": "cut_enter", "salt": int(rng.integers(0, 10**6)),
                 "mod": int(rng.choice([2, 3, 5, 9]))})
